@@ -408,3 +408,107 @@ def check_c18(prop, tier, replay, selftest):
     res.assumptions = ["TLC evaluates NoGoodsOps correctly", "hook H2 exports buckets / closure faithfully",
                        "nogoods larger than the store size are outside the documented domain and not generated"]
     return res.finish()
+
+
+# ------------------------------------------------------------------ C20
+@register("C20")
+def check_c20(prop, tier, replay, selftest):
+    res = Result(prop, tier)
+    binary = build_harness()
+    out = os.path.join(WORK, "iter_C20.ndjson")
+    os.makedirs(WORK, exist_ok=True)
+    run_harness(binary, ["iter", "--tier", tier, "--out", out])
+    if selftest:
+        def corrupt(rec):
+            if len(rec.get("three", [])) < 3:
+                return None
+            rec["three"][2] = rec["three"][1]
+            return rec
+        ok = selftest_corrupt("Trace_Iter", out, corrupt)
+        print("SELFTEST %s: %s" % (prop, "binding demonstrated" if ok else "FAILED"))
+        return 0 if ok else 2
+    res.add_mc(require_mc(tlc_mc("MC_Iter", "MC_Iter.cfg", workers=8, timeout=600)))
+    tr = tlc_trace("Trace_Iter", out, min_per_shard=20)
+    res.add_trace(tr)
+    seen = set()
+    items = 0
+    for line in tr["lines"]:
+        r = json.loads(line)
+        items += len(r["two"]) + len(r["three"])
+        if any(x > 1 for x in r["vec"]):
+            seen.add(tuple("U" if x > 1 else str(x) for x in r["vec"]))
+    for gl, t in tr["tuples"]:
+        if gl is None:
+            continue
+        if t[0] == "MISMATCH":
+            rec = json.loads(tr["lines"][gl - 1])
+            res.violation("%s_%s" % (rec["id"], t[4]), {"property": prop, "component": "iter", "record": rec, "mismatch": t},
+                          "C20 %s on vector %s" % (t[4], rec["vec"]))
+        elif t[0] == "DRIFT":
+            res.drift.append({"record": t[2], "what": t[3]})
+    res.evaluations = items
+    res.distinct = seen
+    res.exhaustive = False
+    res.extra["exhaustive_subspace"] = "all 364 vectors of length <= 5 over {T,F,U} on both the model and the real iterators"
+    res.rule = ("records = interpretation vectors (all 364 of length <= 5, seeded ones of length 6-10 with <= 8 undecided positions, arbitrary "
+                "non-constant handles); both real iterators are run to exhaustion and three more calls; evaluations = emitted items; "
+                "distinct = distinct T/F/U pattern; non-trivial = at least one undecided position")
+    res.samples = [json.loads(l) for l in tr["lines"][30:32]]
+    res.extra["drift_count"] = len(res.drift)
+    res.assumptions = ["TLC evaluates Iterators correctly", "the harness logs the raw items the iterators returned"]
+    return res.finish()
+
+
+# ------------------------------------------------------------------ C19
+@register("C19")
+def check_c19(prop, tier, replay, selftest):
+    res = Result(prop, tier)
+    binary = build_harness()
+    out = os.path.join(WORK, "frontend_C19.ndjson")
+    os.makedirs(WORK, exist_ok=True)
+    run_harness(binary, ["frontend", "--tier", tier, "--out", out])
+    if selftest:
+        def corrupt(rec):
+            polls = [s for s in rec.get("steps", []) if s["a"] != "fwd" and len(s["nodes"]) > 3]
+            if rec.get("mode") != "scheduled" or not polls:
+                return None
+            polls[0]["nodes"] = polls[0]["nodes"][:-1]      # the observer "lost" its newest node
+            return rec
+        ok = selftest_corrupt("Trace_Frontend", out, corrupt)
+        print("SELFTEST %s: %s" % (prop, "binding demonstrated" if ok else "FAILED"))
+        return 0 if ok else 2
+    res.add_mc(require_mc(tlc_mc("Frontend", "Frontend.cfg", workers=8, timeout=600)))
+    if tier == "thorough":
+        res.add_mc(require_mc(tlc_mc("Frontend", "Frontend_9.cfg", workers=12, timeout=2400)))
+    tr = tlc_trace("Trace_Frontend", out)
+    res.add_trace(tr)
+    seen = set()
+    polls = 0
+    for line in tr["lines"]:
+        r = json.loads(line)
+        if r.get("kind") != "frontend":
+            continue
+        ps = [s for s in r["steps"] if s["a"] != "fwd"]
+        polls += len(ps)
+        if any(not s["found"] for s in ps) and any(s["found"] and s["h"] >= 2 for s in ps):
+            seen.add(hashlib.sha1(json.dumps([r["prod"], [(s["a"], s.get("h")) for s in r["steps"]]]).encode()).hexdigest())
+    for gl, t in tr["tuples"]:
+        if gl is None:
+            continue
+        if t[0] == "MISMATCH":
+            rec = json.loads(tr["lines"][gl - 1])
+            res.violation("%s_%s" % (rec["id"], t[4]), {"property": prop, "component": "frontend", "record": rec, "mismatch": t},
+                          "C19 %s at step %s of run %s (%s)" % (t[4], t[5], rec["id"], rec.get("mode")))
+        elif t[0] == "DRIFT":
+            res.drift.append({"record": t[2], "what": t[3], "step": t[4]})
+    res.evaluations = polls
+    res.distinct = seen
+    res.rule = ("records = runs of a real producer store streaming into a real relay store (sender+receiver) and a real receiver: every schedule "
+                "of length 3 over {forward one message, relay poll h, receiver poll h} on a 3-node stream, seeded long schedules on streams of 3-14 "
+                "nodes, and free-running threads; evaluations = polls; distinct = distinct (producer table, schedule); non-trivial = the run contains "
+                "both a poll answered not-found and one answered found for a streamed node")
+    res.samples = [dict(json.loads(l), steps=json.loads(l)["steps"][:4]) for l in tr["lines"][5000:5002] or tr["lines"][:1]]
+    res.extra["drift_count"] = len(res.drift)
+    res.assumptions = ["TLC evaluates Frontend correctly", "in scheduled mode producer progress is played by forwarding the producer's own messages one at a time (the producer's table at cut k is the prefix of its final table: append-only, C07)",
+                       "in threads mode no cross-thread order is inferred; each observer's tables are judged against the producer's final table"]
+    return res.finish()
